@@ -100,8 +100,23 @@ func cloneMeta(meta storage.Object) storage.Object {
 	return meta
 }
 
+// getOrCreateBucket returns the bucket, creating it if needed, in one step: with a separate create and lookup a
+// concurrent bucket deletion in between would leave the caller with a nil bucket.
+func (ms *memstore) getOrCreateBucket(bucket string) *memBucket {
+	ms.mu.Lock()
+	defer ms.mu.Unlock()
+	b := ms.buckets[bucket]
+	if b == nil {
+		b = &memBucket{
+			created: time.Now(),
+			files:   btree.New(16),
+		}
+		ms.buckets[bucket] = b
+	}
+	return b
+}
+
 func (ms *memstore) Add(bucket string, filename string, contents []byte, meta *storage.Object) error {
-	_ = ms.CreateBucket(bucket)
 
 	InitScrubbedMeta(meta, filename)
 	meta.Metageneration = 1
@@ -114,7 +129,7 @@ func (ms *memstore) Add(bucket string, filename string, contents []byte, meta *s
 		meta.TimeCreated = meta.Updated
 	}
 
-	b := ms.getBucket(bucket)
+	b := ms.getOrCreateBucket(bucket)
 	b.mu.Lock()
 	defer b.mu.Unlock()
 	b.files.ReplaceOrInsert(&memFile{
@@ -134,6 +149,10 @@ func (ms *memstore) UpdateMeta(bucket string, filename string, meta *storage.Obj
 	meta.Metageneration = metagen
 
 	b := ms.getBucket(bucket)
+	if b == nil {
+		// the bucket was deleted in the meantime
+		return os.ErrNotExist
+	}
 	b.mu.Lock()
 	defer b.mu.Unlock()
 	b.files.ReplaceOrInsert(&memFile{
